@@ -32,6 +32,8 @@ LEVEL = "exploration"
 RULE = ("a case = (generated model with pass bait: Identity/Constant nodes, duplicate subexpressions and "
         "initializers, unused nodes/functions/opsets, function calls, subgraph initializers, missing/duplicate "
         "names, optional trailing outputs, Identity outputs knowing more/less type and shape than their inputs, "
+        "a producer placed after its consumer in ONE graph (main / nested in main / function body / nested in a "
+        "function body - single items at the pass's fixpoint are stratified over these scope classes), "
         "inner scopes whose values share a name with a value of an enclosing graph) x one built-in pass (all 19, "
         "plain or under functionalize(), analysis passes included) or a Sequential/PassManager composition "
         "(members and/or the whole composition under functionalize()), "
@@ -79,7 +81,13 @@ def plan(tier: str) -> dict:
                    "analysis_snapshots": 40 if quick else 1500, "faults_injected": 20 if quick else 800,
                    "applied_functional:CheckerPass": 2 if quick else 40,
                    "at_fixpoint_flag_false_judged": 150 if quick else 3000,
-                   "models_with_bait:cross_scope_name_clash": 100 if quick else 2000})
+                   "models_with_bait:cross_scope_name_clash": 100 if quick else 2000,
+                   # one item at the fixpoint, by the scope class of the graph it was planted in
+                   "at_fixpoint_scope:main_nested": 120 if quick else 2500,
+                   "at_fixpoint_scope:function": 50 if quick else 1000,
+                   "at_fixpoint_scope:function_nested": 40 if quick else 800,
+                   "at_fixpoint_item_scope:disorder@function_nested": 3 if quick else 60,
+                   "at_fixpoint_modified_true:TopologicalSortPass": 20 if quick else 400})
     return {"cases": 2600 if quick else 60000, "shards": 16, "budget_s": 40 if quick else 560,
             "floors": floors, "min_nontrivial": 100}
 
@@ -114,6 +122,22 @@ def nested_graphs_of(g) -> list:
                     subs = [a.value] if a.type == ir.AttributeType.GRAPH else (list(a.value) if a.type == ir.AttributeType.GRAPHS else [])
                     out.extend(subs)
                     stack.extend(subs)
+    return out
+
+
+SCOPE_CLASSES = ("main", "main_nested", "function", "function_nested")
+
+
+def scope_classes(model) -> dict:
+    """id(graph) -> where the graph sits: the main graph, a graph nested (at any depth) in a node of the
+    main graph, the body of a model-local function, or a graph nested in a node of a function body."""
+    out = {id(model.graph): "main"}
+    for sg in nested_graphs_of(model.graph):
+        out.setdefault(id(sg), "main_nested")
+    for f in model.functions.values():
+        out.setdefault(id(f.graph), "function")
+        for sg in nested_graphs_of(f.graph):
+            out.setdefault(id(sg), "function_nested")
     return out
 
 
@@ -188,7 +212,7 @@ def plant_name_clash(g, planted, gen: gen_ir.IRGen) -> int:
     return done
 
 
-ITEM_KINDS = ("identity", "dup", "constant", "unused", "optout", "dupinit", "inout")
+ITEM_KINDS = ("identity", "dup", "constant", "unused", "optout", "dupinit", "inout", "disorder")
 # the kind of planted pattern each pass is about (used when ONE item is planted at the pass's fixpoint)
 RELEVANT_ITEMS = {
     "IdentityEliminationPass": ("identity",),
@@ -200,6 +224,7 @@ RELEVANT_ITEMS = {
     "OutputFixPass": ("inout", "identity"),
     "AddInitializersToInputsPass": ("dupinit",),
     "RemoveInitializersFromInputsPass": ("dupinit",),
+    "TopologicalSortPass": ("disorder",),
 }
 
 
@@ -288,8 +313,53 @@ def plant_item(model, g, vis, gen: gen_ir.IRGen, kind: str, planted: list) -> No
     elif kind == "inout":
         if g.inputs and not is_fn:
             g.outputs.append(rng.choice(list(g.inputs)))  # graph input returned directly (OutputFixPass)
+    elif kind == "disorder":
+        # ONE local disorder confined to g: a producer placed after a node of g that consumes its value
+        # (directly, or captured inside a graph nested in that node). Every other graph keeps its order.
+        pairs = []
+        if rng.random() < 0.5:
+            pos = {id(n): i for i, n in enumerate(g)}
+            for c in g:
+                for v in _values_used_by(c):
+                    pr = v.producer()
+                    if pr is not None and pr is not c and id(pr) in pos and pos[id(pr)] < pos[id(c)]:
+                        pairs.append((pr, c))
+        if pairs:
+            pr, c = rng.choice(pairs)
+            g.remove(pr)           # still connected: only its position changes
+            g.insert_after(c, pr)
+            gen.features.add("bait:disorder_moved_producer")
+        else:
+            a = ir.Node("", "Relu", [src], outputs=[gen.value()], name=rng.choice([None, gen.fresh("late")]))
+            if rng.random() < 0.3:
+                # the consumer uses the value only inside its nested graph (a capture)
+                inner = ir.Node("", "Abs", [a.outputs[0]], outputs=[gen.value()])
+                body = ir.Graph([], [inner.outputs[0]], nodes=[inner], name=rng.choice([None, gen.fresh("cap")]))
+                b = ir.Node("", "If", [src], [ir.AttrGraph("then_branch", body)], outputs=[gen.value()])
+                gen.features.add("bait:disorder_through_capture")
+            else:
+                b = ir.Node("", "Neg", [a.outputs[0]], outputs=[gen.value()])
+            g.extend([b, a])
+            if rng.random() < 0.5:
+                g.outputs.append(b.outputs[0])
+            vis.extend([a.outputs[0], b.outputs[0]])
+            planted.append(b.outputs[0])
+            gen.features.add("bait:disorder_new_pair")
     else:
         raise ValueError(kind)
+
+
+def _values_used_by(n):
+    """values a node uses directly or inside the graphs nested in it"""
+    for v in n.inputs:
+        if v is not None:
+            yield v
+    for a in n.attributes.values():
+        if isinstance(a, ir.Attr) and not a.is_ref():
+            subs = [a.value] if a.type == ir.AttributeType.GRAPH else (list(a.value) if a.type == ir.AttributeType.GRAPHS else [])
+            for sg in subs:
+                for m in sg:
+                    yield from _values_used_by(m)
 
 
 def plant_scope_and_clash(g, vis, planted, gen: gen_ir.IRGen, p_scope=0.6, p_clash=0.85) -> None:
@@ -324,7 +394,9 @@ def bait(model: ir.Model, gen: gen_ir.IRGen) -> None:
             plant_item(model, g, vis, gen, "dupinit", planted)
         if rng.random() < 0.25 and g.inputs and not is_fn:
             plant_item(model, g, vis, gen, "inout", planted)
-        plant_scope_and_clash(g, vis, planted, gen)
+        # function bodies get an inner scope more often: graphs nested in a function body are a scope
+        # class of their own (a pass walks model.functions separately from the main graph)
+        plant_scope_and_clash(g, vis, planted, gen, p_scope=0.85 if is_fn else 0.6)
     # calls to model functions (InlinePass) and unused opsets
     for f in list(model.functions.values()):
         if rng.random() < 0.7:
@@ -632,26 +704,77 @@ def judge_pass(ctx, model, pname, rng, case, fault_kind=None, messy_names=False,
             viol(f"no-fixpoint|{pname}", f"{pname} still reports modified=True after {rounds} rounds (bound {nbound})")
             return True
         if not errored and isinstance(gen, gen_ir.IRGen) and not messy_names:
-            if one_item_at_fixpoint(ctx, p, pname, variant, cur, gen, viol):
+            if items_at_fixpoint(ctx, p, pname, variant, cur, gen, viol):
                 return True
     return bool(res.modified)
 
 
-def one_item_at_fixpoint(ctx, p, pname, variant, model, gen, viol) -> bool:
-    """`model` is at the fixpoint of p (p reports no modification and changes nothing). ONE further pattern
-    is planted - of a kind the pass is about, most of the time - so that what the pass does with this
-    single opportunity (rewrite it, or decline it behind one of its guards) is observed on its own and
-    not hidden behind the modified=True of other rewrites in the same run. Identity, links and the
-    modified flag are judged for this application; True = a violation was reported."""
+def items_at_fixpoint(ctx, p, pname, variant, model, gen, viol) -> bool:
+    """`model` is at the fixpoint of p. Up to three single items are planted one after the other, each in a
+    graph of a DIFFERENT scope class (main graph / nested in the main graph / function body / nested in a
+    function body - drawn uniformly over the classes the model has, not over its graphs), and p is applied
+    and judged after each; between two items p is iterated to its fixpoint again. So the only thing p has to
+    act on (and to report) sits in exactly one scope of the model. True = a violation was reported."""
     rng = gen.rng
-    graphs = [g for g in all_graphs(model)]
-    rng.shuffle(graphs)
-    for g in graphs:
-        vis = list(g.inputs) + list(g.initializers.values()) + [o for n in g for o in n.outputs if o.name]
-        if vis:
-            break
-    else:
-        return False
+    n_items = rng.choice([1, 2, 3, 3])
+    cur, visited = model, []
+    for i in range(n_items):
+        cls_of = scope_classes(cur)
+        by_cls = {}
+        for g in all_graphs(cur):
+            vis = list(g.inputs) + list(g.initializers.values()) + [o for n in g for o in n.outputs if o.name]
+            if vis:
+                by_cls.setdefault(cls_of.get(id(g), "main"), []).append((g, vis))
+        choices = [c for c in SCOPE_CLASSES if c in by_cls and c not in visited] or [c for c in SCOPE_CLASSES if c in by_cls]
+        if not choices:
+            return False
+        cls = rng.choice(choices)
+        visited.append(cls)
+        g, vis = rng.choice(by_cls[cls])
+        status, cur, b = one_item_at_fixpoint(ctx, p, pname, variant, cur, g, vis, cls, gen, viol)
+        if status == "violation":
+            return True
+        if status != "applied" or i == n_items - 1:
+            return False
+        # back to the fixpoint before the next item (same judgement as the first fixpoint run)
+        nbound = sum(1 for x in all_graphs(cur) for _ in x) + sum(1 for x in all_graphs(cur) for n in x for _ in n.outputs) \
+            + sum(len(x.inputs) + len(x.initializers) for x in all_graphs(cur)) + len(cur.functions) + 2
+        rounds, settled = 0, False
+        while rounds < nbound:
+            rounds += 1
+            try:
+                r = p(cur)
+            except Exception as e:  # noqa: BLE001
+                if _identity_pass_error_in_chain(e):
+                    viol(f"identity|{pname}|{variant}|PassError", f"{variant} {pname} re-settling after an item at its fixpoint: {e}"[:800])
+                    return True
+                ctx.count("fixpoint_pass_error:" + pname)
+                return False
+            nb, _ = try_ser(r.model)
+            if not r.modified:
+                if b is not None and nb is not None and nb != b:
+                    d = _first_proto_diff(b, nb)
+                    viol(f"modified-false-but-changed|{pname}|{d[0]}", f"{pname} (re-settling after one item at its fixpoint) reported modified=False but changed: {d[1]}")
+                    return True
+                cur = r.model
+                settled = True
+                break
+            cur, b = r.model, nb
+        ctx.count("at_fixpoint_resettle_rounds", rounds)
+        if not settled:
+            viol(f"no-fixpoint|{pname}", f"{pname} still reports modified=True after {rounds} rounds (bound {nbound}) following one item planted at its fixpoint")
+            return True
+    return False
+
+
+def one_item_at_fixpoint(ctx, p, pname, variant, model, g, vis, cls, gen, viol):
+    """`model` is at the fixpoint of p (p reports no modification and changes nothing). ONE further pattern
+    is planted in graph g - of a kind the pass is about, most of the time - so that what the pass does with
+    this single opportunity (rewrite it, or decline it behind one of its guards) is observed on its own and
+    not hidden behind the modified=True of other rewrites in the same run. Identity, links and the
+    modified flag are judged for this application.
+    Returns (status, resulting model, its bytes); status "violation" = a violation was reported."""
+    rng = gen.rng
     rel = RELEVANT_ITEMS.get(pname)
     kind = rng.choice(rel) if (rel and rng.random() < 0.75) else rng.choice(ITEM_KINDS)
     planted = []
@@ -659,48 +782,51 @@ def one_item_at_fixpoint(ctx, p, pname, variant, model, gen, viol) -> bool:
     plant_scope_and_clash(g, vis, planted, gen, p_scope=0.75, p_clash=0.9)
     if invariants.check_model(model) or iso_ir.well_scoped(model):
         ctx.count("at_fixpoint_precondition_broken")
-        return False
+        return "skipped", model, None
     b0, _ = try_ser(model)
     if b0 is None:
         ctx.count("at_fixpoint_not_serialisable")
-        return False
+        return "skipped", model, None
     unordered0 = unordered_graphs(model)
     try:
         res = p(model)
     except Exception as e:  # noqa: BLE001
         if _identity_pass_error_in_chain(e):
-            viol(f"identity|{pname}|{variant}|PassError", f"{variant} {pname} after one more '{kind}' item at its fixpoint: {e}"[:800])
-            return True
+            viol(f"identity|{pname}|{variant}|PassError", f"{variant} {pname} after one more '{kind}' item in a {cls} graph at its fixpoint: {e}"[:800])
+            return "violation", model, None
         ctx.count("at_fixpoint_pass_error:" + pname)
-        return False
+        ctx.count(f"at_fixpoint_pass_exc:{pname}:{type(e).__name__}@{raise_site(e)}")
+        return "skipped", model, None
     ctx.count("at_fixpoint_applied")
     ctx.count("at_fixpoint_item:" + kind)
+    ctx.count("at_fixpoint_scope:" + cls)
+    ctx.count(f"at_fixpoint_item_scope:{kind}@{cls}")
     if (res.model is model) != bool(p.in_place):
-        viol(f"identity|{pname}", f"{pname}.in_place={p.in_place} but result.model is input: {res.model is model} (one '{kind}' item at the fixpoint)")
-        return True
+        viol(f"identity|{pname}", f"{pname}.in_place={p.in_place} but result.model is input: {res.model is model} (one '{kind}' item in a {cls} graph at the fixpoint)")
+        return "violation", model, None
     bad = invariants.check_model(res.model)
     if bad:
-        viol(f"links|{pname}|{'+'.join(sorted({c for c, _ in bad}))}", f"after {pname} (one '{kind}' item at the fixpoint): " + "; ".join(m for _, m in bad[:5]))
-        return True
+        viol(f"links|{pname}|{'+'.join(sorted({c for c, _ in bad}))}", f"after {pname} (one '{kind}' item in a {cls} graph at the fixpoint): " + "; ".join(m for _, m in bad[:5]))
+        return "violation", model, None
     b1, e1 = try_ser(res.model)
     if b1 is None:
         viol(f"serialisation-broken|{pname}|{type(e1).__name__}@{raise_site(e1)}",
-             f"model serialised before {pname} (one '{kind}' item at the fixpoint) but raises after: {e1!r}"[:1200])
-        return True
+             f"model serialised before {pname} (one '{kind}' item in a {cls} graph at the fixpoint) but raises after: {e1!r}"[:1200])
+        return "violation", model, None
     if not res.modified:
         ctx.count("flag_false_judged")
         ctx.count("at_fixpoint_flag_false_judged")
         if b0 != b1:
             d = _first_proto_diff(b0, b1)
             viol(f"modified-false-but-changed|{pname}|{d[0]}",
-                 f"{pname} at its fixpoint plus one '{kind}' item reported modified=False but the serialised model changed: {d[1]}")
-            return True
+                 f"{pname} at its fixpoint plus one '{kind}' item in a {cls} graph reported modified=False but the serialised model changed: {d[1]}")
+            return "violation", model, None
     else:
         ctx.count("at_fixpoint_modified_true:" + pname)
     if not unordered0 and unordered_graphs(res.model):
-        viol(f"order-broken|{pname}", f"all graphs were topologically ordered before {pname} (one '{kind}' item at the fixpoint); some are not after it")
-        return True
-    return False
+        viol(f"order-broken|{pname}", f"all graphs were topologically ordered before {pname} (one '{kind}' item in a {cls} graph at the fixpoint); some are not after it")
+        return "violation", model, None
+    return "applied", res.model, b1
 
 
 def _is_tensor_name_alignment(w, entry) -> bool:
